@@ -64,6 +64,8 @@ impl Popen {
     #[verifier::external_body]
     pub fn wait(&mut self, Tracked(w): Tracked<&mut World>) -> (r: Result<ExitStatus>)
         requires old(self).child_state is Running ==> (old(self).child_state->pid as int) < old(w).s.stages.len(),
+            // wait-safety: the library itself holds no pipe end a child could be blocked on
+            old(self).child_state is Running ==> no_parked(old(w).s), //[C12,C14]
         ensures
             r is Ok, final(self).stdin == old(self).stdin, final(self).stdout == old(self).stdout, final(self).stderr == old(self).stderr, final(self).detached == old(self).detached,
             old(self).child_state is Running ==> final(w).s == set_reaped(old(w).s, old(self).child_state->pid as int) && final(self).child_state is Finished,
@@ -75,7 +77,7 @@ impl Popen {
     pub fn drop_impl(&mut self, Tracked(w): Tracked<&mut World>)
         requires
             old(self).child_state is Running ==> (old(self).child_state->pid as int) < old(w).s.stages.len(),
-            !old(self).detached && old(self).child_state is Running ==> holds_no_pipe(*old(self)), //[C12,C14]
+            !old(self).detached && old(self).child_state is Running ==> holds_no_pipe(*old(self)) && no_parked(old(w).s), //[C12,C14]
         ensures
             !old(self).detached && old(self).child_state is Running ==> final(w).s == set_reaped(old(w).s, old(self).child_state->pid as int),
             old(self).detached || !(old(self).child_state is Running) ==> final(w).s == old(w).s,    // a detached handle never blocks, never reaps
@@ -83,10 +85,13 @@ impl Popen {
 
     // communicate_start takes the three pipe ends out of the Popen (unit comm proves what the Communicator does with them)
     #[verifier::external_body]
-    pub fn communicate_start(&mut self, input_data: Option<Vec<u8>>) -> (r: Communicator)
+    pub fn communicate_start(&mut self, input_data: Option<Vec<u8>>, Tracked(w): Tracked<&mut World>) -> (r: Communicator)
         requires old(self).stdin.is_some() == input_data.is_some(),     // documented panics
         ensures holds_no_pipe(*final(self)), final(self).child_state == old(self).child_state, final(self).detached == old(self).detached,
             r.out_piped@ == old(self).stdout.is_some(), r.err_piped@ == old(self).stderr.is_some(),
+            // the pipe ends now live in the Communicator: still held by the library
+            r.ends@ == opt_obj(old(self).stdin).union(opt_obj(old(self).stdout)).union(opt_obj(old(self).stderr)),
+            final(w).s == (BW { parked: old(w).s.parked.union(r.ends@), ..old(w).s }),
     { unimplemented!() }
 }
 impl PopenConfig {
@@ -99,14 +104,34 @@ impl PopenConfig {
 pub fn env_retain_ne(v: &mut Vec<(OsString, OsString)>, key: &OsStr)
     ensures final(v)@ == old(v)@.filter(|kv: (OsString, OsString)| kv.0.b@ != key.b@)
 { unimplemented!() }
-pub struct Communicator { pub out_piped: Ghost<bool>, pub err_piped: Ghost<bool> }
+pub struct Communicator { pub out_piped: Ghost<bool>, pub err_piped: Ghost<bool>, pub ends: Ghost<Set<int>> }
 pub struct CommunicateError { pub error: io::Error }
 impl Communicator {
     #[verifier::external_body]
-    pub fn read(&mut self) -> (r: core::result::Result<(Option<Vec<u8>>, Option<Vec<u8>>), CommunicateError>)
-        ensures r is Ok ==> r->Ok_0.0.is_some() == old(self).out_piped@ && r->Ok_0.1.is_some() == old(self).err_piped@, *final(self) == *old(self)
+    pub fn read(&mut self, Tracked(w): Tracked<&mut World>) -> (r: core::result::Result<(Option<Vec<u8>>, Option<Vec<u8>>), CommunicateError>)
+        ensures r is Ok ==> r->Ok_0.0.is_some() == old(self).out_piped@ && r->Ok_0.1.is_some() == old(self).err_piped@, *final(self) == *old(self),
+            // an unlimited read that succeeds has delivered all input (and closed stdin) and seen end-of-file on every captured stream
+            // (unit comm): no child can be blocked on these ends any more.  A failed read leaves them as they were.
+            r is Ok ==> final(w).s == (BW { parked: old(w).s.parked.difference(old(self).ends@), ..old(w).s }),
+            r is Err ==> final(w).s == old(w).s,
     { unimplemented!() }
 }
+// dropping a Communicator closes the pipe ends it holds (its fields are Option<File>)
+#[verifier::external_body]
+pub fn drop_glue_communicator(c: Communicator, Tracked(w): Tracked<&mut World>)
+    ensures final(w).s == (BW { parked: old(w).s.parked.difference(c.ends@), ..old(w).s })
+{ unimplemented!() }
+// a Communicator returned to the caller is the caller's to look after: the library's terminators that hand one out (communicate())
+// have detached the children and wait for nothing
+#[verifier::external_body]
+pub proof fn hand_over(tracked w: &mut World, ends: Set<int>)
+    ensures final(w).s == (BW { parked: old(w).s.parked.difference(ends), ..old(w).s })
+{ unimplemented!() }
+// dropping a File closes it
+#[verifier::external_body]
+pub fn drop_glue_opt_file(f: Option<File>, Tracked(w): Tracked<&mut World>)
+    ensures final(w).s == (BW { parked: old(w).s.parked.difference(opt_obj(f)), ..old(w).s })
+{ unimplemented!() }
 impl vstd::std_specs::convert::FromSpecImpl<CommunicateError> for PopenError {
     open spec fn obeys_from_spec() -> bool { true }
     open spec fn from_spec(v: CommunicateError) -> Self { PopenError::IoError(v.error) }
@@ -116,9 +141,11 @@ pub mod communicate {
     use vstd::prelude::*;
     use super::*;
     #[verifier::external_body]
-    pub fn communicate(stdin: Option<File>, stdout: Option<File>, stderr: Option<File>, input_data: Option<Vec<u8>>) -> (r: Communicator)
+    pub fn communicate(stdin: Option<File>, stdout: Option<File>, stderr: Option<File>, input_data: Option<Vec<u8>>, Tracked(w): Tracked<&mut World>) -> (r: Communicator)
         requires stdin.is_some() == input_data.is_some(),
         ensures r.out_piped@ == stdout.is_some(), r.err_piped@ == stderr.is_some(),
+            r.ends@ == opt_obj(stdin).union(opt_obj(stdout)).union(opt_obj(stderr)),
+            final(w).s == (BW { parked: old(w).s.parked.union(r.ends@), ..old(w).s }),
     { unimplemented!() }
 }
 pub mod popen_m {
@@ -129,7 +156,8 @@ pub mod popen_m {
     pub fn make_pipe(Tracked(w): Tracked<&mut World>) -> (r: io::Result<(File, File)>)
         ensures match r {
             Ok((rd, wr)) => peer(rd.obj@) == wr.obj@ && peer(wr.obj@) == rd.obj@ && rd.obj@ != wr.obj@ && !old(w).s.inheritable.contains(rd.obj@) && !old(w).s.inheritable.contains(wr.obj@)
-                && final(w).s == old(w).s,
+                // the read end is the library's to look after until it is closed or handed to a Communicator
+                && final(w).s == (BW { parked: old(w).s.parked.insert(rd.obj@), ..old(w).s }),
             Err(e) => final(w).s == old(w).s,
         }
     { unimplemented!() }
@@ -146,7 +174,7 @@ pub mod popen_m {
 // Vec<T>: the elements in order.  (Files are closed by their own drop; not modelled.)
 pub fn drop_glue_popen(p: Popen, Tracked(w): Tracked<&mut World>)
     requires p.child_state is Running ==> (p.child_state->pid as int) < old(w).s.stages.len(),
-        !p.detached && p.child_state is Running ==> holds_no_pipe(p),
+        !p.detached && p.child_state is Running ==> holds_no_pipe(p) && no_parked(old(w).s), //[C12,C14]
     ensures
         !p.detached && p.child_state is Running ==> final(w).s == set_reaped(old(w).s, p.child_state->pid as int),
         p.detached || !(p.child_state is Running) ==> final(w).s == old(w).s,
